@@ -439,20 +439,49 @@ def rule_dispatch_addresses(ctx) -> None:
     """C13.own-address: every blob (image or segment) is encrypted at ITS OWN absolute address; C13.every-engine: every BEE engine is
     offered every block (whether a block falls into an engine's regions is decided by that engine, block by block)."""
     chk = ctx.chk
-    for rp, cn in (("spsdk/utils/crypto/iee.py", "IeeNxp"), ("spsdk/utils/crypto/otfad.py", "OtfadNxp")):
-        fn = ctx.own(rp, cn, "export_image") if ctx.prog.cls(rp, cn).method("export_image") else ctx.own(rp, cn, "binary_image")
-        calls = [c for c in ast.walk(fn.node) if isinstance(c, ast.Call) and norm(c.func) == "self.encrypt_image"]
-        if len(calls) < 2:
-            raise AnalysisError(f"C13.own-address: encrypt_image call sites of {fn.qual} not found")
-        for c in calls:
-            data = norm(A.arg_of(c, 0, "image"))
-            addr = A.inline_locals(fn.node, A.arg_of(c, 1, "base_addr"))
-            obj = data[:-len(".binary")] if data.endswith(".binary") else None
-            an = norm(addr)
-            ok = obj is not None and f"{obj}.absolute_address" in an and all(f"{o}.absolute_address" not in an for o in ("binary", "segment") if o != obj)
-            chk.decide(ok, "C13.own-address", f"{fn.qual} encrypt {data}", f"`{data}` is encrypted at `{an}` - its own absolute address plus the table/key-blob base",
-                       f"`{data}` is encrypted at `{an}`, which is not derived from `{obj}.absolute_address` (every segment would be encrypted as if it sat at another blob's address)", "", A.loc(rp, c))
-    chk.floor("C13.own-address", 4)
+    # export_image evaluated on a model image tree (two data blobs, the second with two segments; helper methods and lambdas are
+    # stepped into): every non-empty blob / segment must be handed to encrypt_image with ITS OWN absolute address + the table base
+    from ..engines import ordereval as _oe
+    MObj = _oe.Obj
+    for rp, cn, base_attr in (("spsdk/utils/crypto/iee.py", "IeeNxp", "keyblob_address"), ("spsdk/utils/crypto/otfad.py", "OtfadNxp", None)):
+        kcls = ctx.prog.cls(rp, cn)
+        fn = ctx.own(rp, cn, "export_image") if kcls.method("export_image") else ctx.own(rp, cn, "binary_image")
+
+        def mk(name, addr, binary, subs=()):
+            return MObj(_node=name, absolute_address=addr, binary=binary, sub_images=tuple(subs))
+        tree = mk("root", 0, None, [mk("blob0", 0x1000, b"A" * 16), mk("blob1", 0x3000, b"", [mk("seg0", 0x3000, b"B" * 32), mk("seg1", 0x3400, b"C" * 16), mk("seg2", 0x3800, b"")])])
+        log = []
+
+        def cv(c: ast.Call, ev, log=log):
+            f = norm(c.func)
+            if f in ("deepcopy", "copy.deepcopy") and len(c.args) == 1:
+                return ev.ev(c.args[0])
+            if f == "align_block" and c.args:
+                d = bytes(ev.ev(c.args[0]))
+                al = ev.ev(A.arg_of(c, 1, "alignment")) if A.arg_of(c, 1, "alignment") is not None else 4
+                return d + bytes((-len(d)) % al)
+            if isinstance(c.func, ast.Attribute) and c.func.attr in ("validate", "join_images") and not c.args:
+                o = ev.ev(c.func.value)
+                if isinstance(o, MObj) and "_node" in o.__dict__:
+                    return None
+            if f == "self.encrypt_image" and len(c.args) + len(c.keywords) >= 2:
+                data, addr = ev.ev(c.args[0]), ev.ev(c.args[1] if len(c.args) > 1 else A.arg_of(c, 1, "base_addr"))
+                log.append((bytes(data), addr))
+                return b"E" + bytes(data)[1:]
+            return _oe.NOT_MODELLED
+        BASE = 0x20000
+        me = MObj(_cls=kcls, binaries=tree, keyblob_address=BASE)
+        env = {"self": me, "plain_data": False, "swap_bytes": False, "join_sub_images": False, "table_address": BASE}
+        env = {k: v for k, v in env.items() if k == "self" or k in [a.arg for a in fn.node.args.args + fn.node.args.kwonlyargs]}
+        try:
+            out = _oe.Evaluator(env, ctx.fold_sym(fn), opaque_return=False, call_value=ctx.model_calls(cv, classes={cn: kcls})).run(A.body_of(fn.node))
+        except _oe.Unsupported as ex:
+            raise AnalysisError(f"C13.own-address: {fn.qual} left the fragment: {ex}")
+        want_log = [(b"A" * 16, BASE + 0x1000), (b"B" * 32, BASE + 0x3000), (b"C" * 16, BASE + 0x3400)]
+        ok = out.kind == "return" and sorted(log) == sorted(want_log)
+        chk.decide(ok, "C13.own-address", f"{fn.qual}", "every non-empty data blob and segment is encrypted exactly once, at its own absolute address plus the table / key-blob base",
+                   f"encrypted (length, address): {[(len(d), hex(a) if isinstance(a, int) else a) for d, a in log]} ({out.kind})", f"{[(len(d), hex(a)) for d, a in want_log]}", A.loc(rp, fn.node))
+    chk.floor("C13.own-address", 2)
     # BEE: each block is offered to every configured engine
     BEE = "spsdk/image/bee.py"
     fn = ctx.own(BEE, "BeeNxp", "export_image")
